@@ -30,7 +30,7 @@ type chanHarness struct {
 
 var chanEntriesFor = map[string][]string{
 	"C19": {"fmapint", "fmapstr", "fmapchan", "joinrr", "joinbr", "joinsr", "joinsb", "joinv2", "joinv3", "joinv4", "pipeline", "dupb", "dupr", "joincc", "joinrc", "pipelinebb"},
-	"C20": {"do2", "do3", "do4"},
+	"C20": {"do2", "do3", "do4", "do3s", "do4s"},
 	"C16": {"compose3"}, // concurrent callers of one composed function (second part of the C16 check)
 }
 
